@@ -61,7 +61,8 @@ class Protonate:
         # TODO - consider putting bond lengths in a configuration file
         self.bond_lengths = {
             'C': 1.09, 'N': 1.01, 'O': 0.96, 'F': 0.92, 'Cl': 1.27,
-            'Br': 1.41, 'I': 1.61, 'S': 1.35}
+            'Br': 1.41, 'I': 1.61, 'S': 1.35, 'Se': 1.46, 'P': 1.42,
+            'B': 1.19, 'Si': 1.48, 'As': 1.52}
         self.protonation_methods = {4: self.tetrahedral, 3: self.trigonal}
 
     def protonate(self, molecules: "MolecularContainer"):
@@ -237,6 +238,10 @@ class Protonate:
         """
         # decide which method to use
         _LOGGER.debug('PROTONATING %s', atom)
+        if atom.element not in self.bond_lengths:
+            # no tabulated X-H bond length (metal ions...): not a hydride
+            _LOGGER.debug('No X-H bond length for %s: not protonated', atom)
+            return
         if atom.steric_number in list(self.protonation_methods.keys()):
             self.protonation_methods[atom.steric_number](atom)
         else:
